@@ -6,10 +6,7 @@ use crate::verif_support::*;
 use quick_xml::events::BytesStart;
 use quick_xml::tape::{self, Cell, Tape};
 
-#[cfg(not(feature = "verif_deep"))]
 const N_INNER: usize = 2;
-#[cfg(feature = "verif_deep")]
-const N_INNER: usize = 3;
 
 /// Items inside `<load-configuration-results>`.
 #[derive(Clone, Copy, PartialEq, Eq)]
@@ -27,6 +24,9 @@ enum Inner {
 fn any_inner() -> Inner {
     let c: u8 = kani::any();
     kani::assume(c < 10);
+    // quick tier: <ok/>, rpc-error (error / warning), load-error-count 1 (see support.rs)
+    #[cfg(not(feature = "verif_deep"))]
+    kani::assume(c == 0 || c == 2 || c == 3 || c == 5);
     match c {
         0 => Inner::Ok,
         1 => Inner::OkPair,
